@@ -290,12 +290,56 @@ def deliver (cfg : Cfg) (s : State) (m : Msg) : State :=
     | none => s
     | some r => applyRule cfg s m r
 
+/-! ## Multi-message transactions -/
+
+/-- The decorator loops over `tx.GetMsgs()` and checks EVERY message on its own: the message's
+    creator against the message's signers, and otherwise the allowances granted by THAT creator
+    (`grantsLkUp` is built afresh from `AllowancesByGranter(creator)` inside the loop).  A grant
+    from the creator of one message says nothing about the creator of another. -/
+def anteOkTx (msgs : List Msg) (grants : Addr → Addr → Bool) : Bool :=
+  msgs.all (fun m => anteOk m grants)
+
+/-- does the handler of a message with rule `r` accept (its authorisation part)? -/
+def accepts (cfg : Cfg) (m : Msg) : Rule → Bool
+  | .actsFor => true
+  | .authorityOnly => m.creator == cfg.authority
+  | .sigProven f => cfg.sigOk m f
+  | .open_ _ => true
+
+/-- handler of one message inside a transaction; `none` = the handler returns an error -/
+def handle (cfg : Cfg) (s : State) (m : Msg) : Option State :=
+  if cfg.handlerOk s m = false then none
+  else match cfg.ruleOf m.typ with
+    | none => none
+    | some r => if accepts cfg m r = true then some (applyRule cfg s m r) else none
+
+/-- the messages of a transaction run in order on the same branch; the first error aborts -/
+def handleAll (cfg : Cfg) : State → List Msg → Option State
+  | s, [] => some s
+  | s, m :: ms =>
+    match handle cfg s m with
+    | none => none
+    | some s' => handleAll cfg s' ms
+
+/-- a transaction is accepted iff the ante chain lets every message through and no handler errs -/
+def txAccepted (cfg : Cfg) (s : State) (msgs : List Msg) : Bool :=
+  anteOkTx msgs s.grants && (handleAll cfg s msgs).isSome
+
+/-- one delivered transaction with several messages: atomic (a rejected transaction's writes,
+    including those of the messages before the failing one, are discarded) -/
+def deliverTx (cfg : Cfg) (s : State) (msgs : List Msg) : State :=
+  if anteOkTx msgs s.grants = false then s
+  else match handleAll cfg s msgs with
+    | none => s
+    | some s' => s'
+
 /-- histories: fee grants are themselves transactions (feegrant's MsgGrantAllowance /
     MsgRevokeAllowance are signed by the granter) -/
 inductive Op where
   | grant (granter grantee : Addr)
   | revoke (granter grantee : Addr)
   | tx (m : Msg)
+  | mtx (ms : List Msg)
 
 def setGrant (g : Addr → Addr → Bool) (a b : Addr) (v : Bool) : Addr → Addr → Bool :=
   fun x y => if x = a ∧ y = b then v else g x y
@@ -304,6 +348,7 @@ def step (cfg : Cfg) (s : State) : Op → State
   | .grant a b => { s with grants := setGrant s.grants a b true }
   | .revoke a b => { s with grants := setGrant s.grants a b false }
   | .tx m => deliver cfg s m
+  | .mtx ms => deliverTx cfg s ms
 
 def run (cfg : Cfg) (s : State) (ops : List Op) : State := ops.foldl (step cfg) s
 
@@ -317,6 +362,15 @@ def sigCheck (typ : String) (txSigners declared : List Addr) (authorityField : O
     | some a => txSigners == [a]
     | none => false
   else txSigners == declared
+
+/-- the signers a message demands: its metadata signers, or its `Authority` field -/
+def declaredSigners (typ : String) (metaSigners : List Addr) (authorityField : Option Addr) : List Addr :=
+  if authoritySigned.contains typ then authorityField.toList else metaSigners
+
+/-- SDK signature check of a multi-message transaction: the transaction must be signed by exactly
+    the de-duplicated concatenation of the signers its messages demand (in order of appearance). -/
+def sigCheckTx (txSigners : List Addr) (declared : List (List Addr)) : Bool :=
+  txSigners == (declared.flatten).eraseDups
 
 /-- May delivering a message of type `typ` legitimately change state attributed to `victim`?
 `alteration = false`: only NEW records that mention the victim appeared; `true`: something that
